@@ -247,14 +247,28 @@ pub(crate) fn l1_node_get() {
         wr[i] = nd::below(2) as usize;
         poke_in_use(nodes[i].unwrap(), st[i]);
         poke_active_writers(nodes[i].unwrap(), wr[i]);
+        // a guard that outlived the thread that owned the node still has its debt in there
+        poke_slot(nodes[i].unwrap(), 3, 0x7770);
+        poke_slot(nodes[i].unwrap(), 8, 0x7778);
         i += 1;
     }
     let head_pre = head_raw();
+    model::log_reset();
+    let w_iu0 = model::watch(model::K_WRITE, if len > 0 { in_use_addr(nodes[0].unwrap()) } else { 1 });
+    let w_iu1 = model::watch(model::K_WRITE, if len > 1 { in_use_addr(nodes[1].unwrap()) } else { 1 });
+    unsafe { crate::verif::set_hooks(None, Some(model::record_after)) };
     vassert!(list_len(4) == len, "node_get_list_has_one_node_per_allocation");
 
     let r = Node::get();
 
+    unsafe { crate::verif::set_hooks(None, None) };
     vassert!(r.in_use.raw().load(SeqCst) == NODE_USED, "node_get_result_is_marked_used");
+    // ownership changes hands only by compare-exchange (claim: UNUSED->USED, release: COOLDOWN->UNUSED)
+    let (iu0, iu1) = (model::w(w_iu0), model::w(w_iu1));
+    vassert!((iu0.count == 0 || ((iu0.first_rec.kind == model::K_CAS || iu0.first_rec.kind == model::K_CASW) && (iu0.last_rec.kind == model::K_CAS || iu0.last_rec.kind == model::K_CASW)))
+        && (iu1.count == 0 || ((iu1.first_rec.kind == model::K_CAS || iu1.first_rec.kind == model::K_CASW) && (iu1.last_rec.kind == model::K_CAS || iu1.last_rec.kind == model::K_CASW))),
+        "node_ownership_changes_only_by_compare_exchange");
+    vassert!(iu0.count <= 2 && iu1.count <= 2, "node_get_at_most_release_and_claim_per_node");
     // list order: head is nodes[len-1], then nodes[len-2] ...
     let mut expected: Option<usize> = None;
     let mut k = len;
@@ -300,6 +314,8 @@ pub(crate) fn l1_node_get() {
             }
         }
         vassert!(n.active_writers.raw().load(SeqCst) == wr[j], "node_get_frame_active_writers_untouched");
+        // debts of guards that outlived the previous owner survive the change of ownership
+        vassert!(peek_slot(n, 3) == 0x7770 && peek_slot(n, 8) == 0x7778, "node_get_never_touches_debt_slots_of_existing_nodes");
         j += 1;
     }
     vcover!("l1_node_get_end");
@@ -329,8 +345,20 @@ pub(crate) fn l1_node_cooldown() {
     let st = any_in_use();
     poke_in_use(n, st);
     let pre = view(n);
+    model::log_reset();
+    let w_iu = model::watch(model::K_WRITE, &n.in_use as *const _ as usize);
+    unsafe { crate::verif::set_hooks(None, Some(model::record_after)) };
     n.check_cooldown();
+    unsafe { crate::verif::set_hooks(None, None) };
     let post = view(n);
+    let wiu = model::w(w_iu);
+    vassert!(wiu.count <= 1, "check_cooldown_writes_in_use_at_most_once");
+    if wiu.count == 1 {
+        // guarantee row of the table: another thread may have claimed the node in the meantime, so
+        // the release must be a compare-exchange that expects COOLDOWN, never a blind store
+        vassert!((wiu.first_rec.kind == model::K_CAS || wiu.first_rec.kind == model::K_CASW) && wiu.first_rec.a == NODE_COOLDOWN && wiu.first_rec.b == NODE_UNUSED,
+            "check_cooldown_releases_only_by_cas_from_cooldown");
+    }
     if st == NODE_COOLDOWN && w == 0 {
         vassert!(post.in_use == NODE_UNUSED, "check_cooldown_releases_quiet_node");
     } else {
@@ -619,6 +647,13 @@ pub(crate) fn l1_node_traverse() {
 #[cfg_attr(kani, kani::unwind(10))]
 pub(crate) fn l1_local_node_helping_roundtrip() {
     let g = helping_h::any_generation();
+    // optionally another, currently unused node sits in front in the list (so that a Node::get at
+    // the wrap-around hands back a different node than the one the thread has)
+    LocalNode::with(|_| ());
+    if nd::any_bool() {
+        let other = Node::get();
+        poke_in_use(other, NODE_UNUSED);
+    }
     LocalNode::with(|l| {
         helping_h::set_generation(&l.helping, g);
         vassert!(l.node.get().is_some(), "with_provides_a_node");
